@@ -1,11 +1,31 @@
 // Driver TU for C14's primitives: util::check, util::ref, Optional, and every sequence implementation at a symbolic index.
 // Each function returns 0 when the datum returned is the right one; refusals are exceptions (the harness allows only logic errors).
 #include <impl.cxx>
+#include <traversal.cxx>
 #include "factory_lib.hxx"
 namespace drv {
    unsigned p_check(const Expr* p) { const Expr* r = util::check(p); return (p == nullptr) ? 1u : (r != p); }                 // returning normally on null is a failure
    unsigned p_ref(const Expr* p) { util::ref<const Expr> r { p }; const Expr& e = r.get(); return (p == nullptr) ? 1u : (&e != p); }
    unsigned p_optional(const Expr* p) { Optional<Expr> o { p }; if (o.is_valid() != (p != nullptr)) return 2u; const Expr& e = o.get(); return (p == nullptr) ? 1u : (&e != p); }
+   // a capture of a declaration whose name is NOT an identifier (an operator name built by the real factory): the capture's
+   // name() is typed `const Identifier&`, so it must refuse (logic error), never hand out a mistyped reference
+   unsigned p_capture_name(impl::Lexicon& lx, const String& s, const Type& t, Binding_mode m)
+   {
+      auto& r = *new impl::Region{ Optional<ipr::Region>{ } };
+      const ipr::Decl& d = *r.declare_var(lx.get_operator(s), t);
+      auto& cf = *new impl::capture_spec_factory{ }; const ipr::Capture_specification::Enclosing_local& c = cf.enclosing_local_capture(d, m);
+      (void)c.name();
+      return 1u;                                           // returned normally: a non-identifier was passed off as an Identifier
+   }
+   // a function declaration switched to definition form before its mapping is attached: parameters() has nothing to report
+   unsigned p_fundecl_definition_form(const Name& n, const ipr::Function& ft)
+   {
+      auto& r = *new impl::Region{ Optional<ipr::Region>{ } };
+      impl::Fundecl* f = r.declare_fun(n, ft);
+      f->data.emplace<1>();
+      (void)static_cast<const ipr::Fundecl&>(*f).parameters();
+      return 1u;                                           // returned normally although no mapping (hence no parameter list) exists
+   }
    template<class S, class T> inline unsigned at_index(const S& s, std::size_t n, const T* const elems[], std::size_t k)
    {
       if (s.size() != n) return 4u;
